@@ -23,20 +23,33 @@ def commentStr (d : Str) : Str := '<' :: '!' :: '-' :: '-' :: d ++ ['-', '-', '>
 
 def blankLine (l : Str) : Bool := trimSpace l == []
 
+/-- the white space HTML collapses (`htmlSpace` in formatter.go): space, tab, LF, FF, CR - every other character, the no-break space and
+    the other Unicode spaces included, is content -/
+def isHtmlSpace (c : Char) : Bool := c == ' ' || c == '\t' || c == '\n' || c == '\x0c' || c == '\r'
+def trimHtmlLeft (s : Str) : Str := s.dropWhile isHtmlSpace
+def trimHtmlRight (s : Str) : Str := (s.reverse.dropWhile isHtmlSpace).reverse
+/-- `trimHTMLSpace` -/
+def trimHtml (s : Str) : Str := trimHtmlRight (trimHtmlLeft s)
+/-- `strings.FieldsFunc(s, isHTMLSpace)` -/
+def fieldsHtmlAux : Str → Str → List Str
+  | [], cur => if cur == [] then [] else [cur.reverse]
+  | c :: r, cur => if isHtmlSpace c then (if cur == [] then fieldsHtmlAux r [] else cur.reverse :: fieldsHtmlAux r []) else fieldsHtmlAux r (c :: cur)
+def fieldsHtml (s : Str) : List Str := fieldsHtmlAux s []
+
 /-- `trimRawContent`: leading and trailing blank lines dropped -/
 def trimRawContent (s : Str) : Str :=
   joinWith ['\n'] (((splitChar '\n' s).dropWhile blankLine).reverse.dropWhile blankLine).reverse
 
 /-- `normalizeInlineText` -/
 def normalizeInlineText (s : Str) : Str :=
-  if trimSpace s == [] then (if s == [] then [] else [' '])
+  if trimHtml s == [] then (if s == [] then [] else [' '])
   else
-    let out := joinWith [' '] (fields (trimSpace s))
-    let out := if (s.head?.map isSpace).getD false then ' ' :: out else out
-    if (s.getLast?.map isSpace).getD false then out ++ [' '] else out
+    let out := joinWith [' '] (fieldsHtml (trimHtml s))
+    let out := if (s.head?.map isHtmlSpace).getD false then ' ' :: out else out
+    if (s.getLast?.map isHtmlSpace).getD false then out ++ [' '] else out
 
 def isWsText : Node → Bool
-  | .text d => trimSpace d == []
+  | .text d => trimHtml d == []
   | _ => false
 
 /-- `collectChildren`: whitespace-only text nodes are not children of a block -/
@@ -72,11 +85,11 @@ def inlineRaw : List Node → Str
 def inlineNode : Node → Str
   | .text d => escText (normalizeInlineText d)
   | .comment d => commentStr d
-  | .elem tag attrs kids => renderOpenTag tag attrs ++ (if isVoid tag then [] else trimSpace (inlineRaw kids) ++ closeTag tag)
+  | .elem tag attrs kids => renderOpenTag tag attrs ++ (if isVoid tag then [] else trimHtml (inlineRaw kids) ++ closeTag tag)
   | .doctype _ => []
 end
 
-def renderInlineChildren (kids : List Node) : Str := trimSpace (inlineRaw kids)
+def renderInlineChildren (kids : List Node) : Str := trimHtml (inlineRaw kids)
 
 mutual
 /-- `renderPreContent` -/
@@ -114,7 +127,7 @@ def formatNode (w : Nat) : Nat → Node → Str
     else if (collectChildren kids).isEmpty then indent ++ renderOpenTag tag attrs ++ closeTag tag ++ ['\n']
     else if shouldKeepInline tag kids then indent ++ renderOpenTag tag attrs ++ renderInlineChildren kids ++ closeTag tag ++ ['\n']
     else indent ++ renderOpenTag tag attrs ++ ['\n'] ++ formatKids w (d + 1) kids ++ indent ++ closeTag tag ++ ['\n']
-  | d, .text t => if trimSpace t == [] then [] else indentOf w d ++ escText (trimSpace t) ++ ['\n']
+  | d, .text t => if trimHtml t == [] then [] else indentOf w d ++ escText (trimHtml t) ++ ['\n']
   | d, .comment c => indentOf w d ++ commentStr c ++ ['\n']
   | _, .doctype _ => []
 /-- the block-mode loop over `collectChildren(n)`: whitespace-only text contributes nothing -/
